@@ -105,8 +105,9 @@ func (f Fact) String() string {
 
 type loopCtx struct {
 	info *loopInfo
-	mode int // 0 generic, 1 exitZ, 2 exitG
-	id   string
+	mode  int // 0 generic, 1 exitZ, 2 exitG, 3 concrete (constant trip count: executed as written)
+	id    string
+	trips int
 }
 
 type Frame struct {
@@ -229,6 +230,11 @@ func (en *Engine) Run(fn *ssa.Function) (*Result, error) {
 		return nil, fmt.Errorf("pathwalk: function has no body")
 	}
 	st := &State{heap: map[string]cell{}, dirty: map[string]int{}, visits: map[string]int{}}
+	if fn.Name() != "init" {
+		for k, c := range en.P.constGlobals(en) {
+			st.heap[k] = c
+		}
+	}
 	fr := &Frame{fn: fn, ctx: "", env: map[ssa.Value]Val{}, block: fn.Blocks[0]}
 	for i, p := range fn.Params {
 		v := &ParamV{Fn: fn, Idx: i, Name: p.Name()}
@@ -362,11 +368,45 @@ func (en *Engine) runUntilBranch(st *State) ([]*State, *Terminal, error) {
 			iv := en.eval(st, fr, x.Index)
 			st.addEvent(&Event{Kind: EvIndex, Instr: x, X: xv, I: iv})
 			fr.env[x] = mkIndex(xv, iv, x.Type())
+			// element of a copy of an effectively-constant package-level array (never written outside init)
+			if l, ok := xv.(*LoadV); ok {
+				if _, isG := directBase(l.Addr).(*GlobalV); isG {
+					if _, isC := iv.(*ConstV); isC {
+						if c, ok := en.P.globalInit[mkIndexAddr(l.Addr, iv, x.Type()).Key()]; ok {
+							fr.env[x] = c.val
+						}
+					}
+				}
+			}
 		case *ssa.Lookup:
 			xv := en.eval(st, fr, x.X)
 			iv := en.eval(st, fr, x.Index)
 			if _, isMap := x.X.Type().Underlying().(*types.Map); isMap {
 				st.addEvent(&Event{Kind: EvLookup, Instr: x, X: xv, I: iv})
+				if a, ok := xv.(*AllocV); ok && a.Comment == "makemap" {
+					_, dirty := st.dirty[a.Key()]
+					_, sym := st.heap["mapsym:"+a.Key()]
+					if _, isC := iv.(*ConstV); isC && !dirty && !sym {
+						var val Val
+						present := false
+						if c, ok := st.heap["map:"+a.Key()+"["+iv.Key()+"]"]; ok {
+							val, present = c.val, true
+						}
+						if x.CommaOk {
+							tt := x.Type().(*types.Tuple)
+							if !present {
+								val = zeroOf(tt.At(0).Type())
+							}
+							fr.env[x] = mkTuple([]Val{val, boolV(present)})
+						} else {
+							if !present {
+								val = zeroOf(x.Type())
+							}
+							fr.env[x] = val
+						}
+						continue
+					}
+				}
 				r := mkIndex(xv, iv, x.Type())
 				if x.CommaOk {
 					tt := x.Type().(*types.Tuple)
@@ -425,6 +465,14 @@ func (en *Engine) runUntilBranch(st *State) ([]*State, *Terminal, error) {
 			kv := en.eval(st, fr, x.Key)
 			vv := en.eval(st, fr, x.Value)
 			st.addEvent(&Event{Kind: EvMapUpdate, Instr: x, X: mv, I: kv, Val: vv})
+			// local map with constant keys: contents are tracked exactly
+			if a, ok := mv.(*AllocV); ok && a.Comment == "makemap" {
+				if _, isC := kv.(*ConstV); isC {
+					st.heap["map:"+a.Key()+"["+kv.Key()+"]"] = cell{a, vv}
+				} else {
+					st.heap["mapsym:"+a.Key()] = cell{a, kv}
+				}
+			}
 		case *ssa.MakeInterface:
 			fr.env[x] = mkIface(en.eval(st, fr, x.X), x.Type())
 		case *ssa.ChangeType:
@@ -627,6 +675,10 @@ func (en *Engine) load(st *State, addr Val, t types.Type) Val {
 	if ia, ok := addr.(*IndexAddrV); ok {
 		if _, isPtr := ia.X.Type().Underlying().(*types.Pointer); isPtr {
 			if pv, ok := en.loadIfStored(st, ia.X); ok {
+				if l, isLoad := pv.(*LoadV); isLoad && l.Epoch == 0 {
+					// the array was copied from memory that may itself have element entries
+					return en.load(st, mkIndexAddr(l.Addr, ia.I, t), t)
+				}
 				return mkIndexOfValue(pv, ia.I, t)
 			}
 		}
@@ -851,7 +903,7 @@ func (en *Engine) transfer(st *State, fr *Frame, to *ssa.BasicBlock) []*State {
 		}
 		fr.loops = fr.loops[:len(fr.loops)-1]
 		st.addEvent(&Event{Kind: EvLoopExit, Instr: from.Instrs[len(from.Instrs)-1], Callee: top.id})
-		if top.mode != 1 {
+		if top.mode != 1 && top.mode != 3 {
 			st.popIter(top.id)
 		}
 	}
@@ -862,6 +914,15 @@ func (en *Engine) transfer(st *State, fr *Frame, to *ssa.BasicBlock) []*State {
 	}
 	if len(fr.loops) > 0 && fr.loops[len(fr.loops)-1].info == li {
 		top := fr.loops[len(fr.loops)-1]
+		if top.mode == 3 {
+			top.trips++
+			if top.trips > 128 {
+				en.Errors = append(en.Errors, "concrete loop exceeds 128 trips in "+fr.fn.String())
+				return nil
+			}
+			en.enterBlock(st, fr, to, nil)
+			return []*State{st}
+		}
 		if top.mode != 0 {
 			return nil // a second trip round the loop in exit mode: not explored
 		}
@@ -870,8 +931,15 @@ func (en *Engine) transfer(st *State, fr *Frame, to *ssa.BasicBlock) []*State {
 		en.enterBlock(st, fr, to, nil)
 		return []*State{st}
 	}
-	// loop entry: zero-iteration state and generic-iteration state
 	id := fr.ctx + "/loop." + fmt.Sprintf("%s:b%d", baseFn(fr.fn), to.Index)
+	// a loop whose exit test compares an induction variable (constant start and step) with a value that is a
+	// compile-time constant on this path — typically a range over a literal table — is executed as written
+	if en.constantTripLoop(st, fr, li, to, from) {
+		fr.loops = append(fr.loops, &loopCtx{info: li, mode: 3, id: id})
+		en.enterBlock(st, fr, to, nil)
+		return []*State{st}
+	}
+	// loop entry: zero-iteration state and generic-iteration state
 	z := st.clone()
 	zf := z.top()
 	zf.loops = append(zf.loops, &loopCtx{info: li, mode: 1, id: id})
@@ -1020,7 +1088,7 @@ func (en *Engine) branch(st *State, fr *Frame, ifi *ssa.If, cv Val) []*State {
 	takeT, takeF := true, true
 	forced := false
 	// loop forcing
-	if len(fr.loops) > 0 {
+	if len(fr.loops) > 0 && fr.loops[len(fr.loops)-1].mode != 3 {
 		top := fr.loops[len(fr.loops)-1]
 		inT, inF := top.info.blocks[tb], top.info.blocks[fb]
 		if inT != inF {
@@ -1158,6 +1226,10 @@ func decide(st *State, c Val) (bool, bool) {
 				}
 			}
 		}
+		// a concatenation with a non-empty constant part is not the empty string
+		if s, ok := constString(b.Y); ok && s == "" && nonEmptyString(b.X) {
+			return false, true
+		}
 		// x == K1 known, asking x == K2
 		if cy, ok := b.Y.(*ConstV); ok && cy.C != nil {
 			for _, f := range st.facts {
@@ -1179,6 +1251,16 @@ func decide(st *State, c Val) (bool, bool) {
 		}
 	}
 	return false, false
+}
+
+func nonEmptyString(v Val) bool {
+	if s, ok := constString(v); ok {
+		return s != ""
+	}
+	if b, ok := v.(*BinV); ok && b.Op == token.ADD {
+		return nonEmptyString(b.X) || nonEmptyString(b.Y)
+	}
+	return false
 }
 
 func nonNilByConstruction(v Val) bool {
@@ -1266,4 +1348,262 @@ func mkIndexOfValue(arr Val, i Val, t types.Type) Val {
 		return zeroOf(t)
 	}
 	return mkIndex(arr, i, t)
+}
+
+// constantTripLoop: the header ends in `if phi(+c) <op> K` with K constant on this path, phi starting at a constant
+// and advancing by a constant step, and at most 64 trips.
+func (en *Engine) constantTripLoop(st *State, fr *Frame, li *loopInfo, header, from *ssa.BasicBlock) bool {
+	if len(header.Instrs) == 0 {
+		return false
+	}
+	ifi, ok := header.Instrs[len(header.Instrs)-1].(*ssa.If)
+	if !ok {
+		return false
+	}
+	cmp, ok := ifi.Cond.(*ssa.BinOp)
+	if !ok {
+		return false
+	}
+	switch cmp.Op {
+	case token.LSS, token.LEQ, token.GTR, token.GEQ, token.NEQ:
+	default:
+		return false
+	}
+	// find the phi behind an operand (phi or phi + const)
+	var findPhi func(v ssa.Value) (*ssa.Phi, int64, bool)
+	findPhi = func(v ssa.Value) (*ssa.Phi, int64, bool) {
+		switch x := v.(type) {
+		case *ssa.Phi:
+			if x.Block() == header {
+				return x, 0, true
+			}
+		case *ssa.BinOp:
+			if x.Op == token.ADD {
+				if c, ok := x.Y.(*ssa.Const); ok && isIntConst(c) {
+					if p, k, ok := findPhi(x.X); ok {
+						return p, k + c.Int64(), true
+					}
+				}
+			}
+		}
+		return nil, 0, false
+	}
+	phi, off, ok := findPhi(cmp.X)
+	other := cmp.Y
+	if !ok {
+		phi, off, ok = findPhi(cmp.Y)
+		other = cmp.X
+		if !ok {
+			return false
+		}
+	}
+	// the other operand: constant in the current environment (it is defined outside the loop)
+	var bound int64
+	if inst, isInstr := other.(ssa.Instruction); isInstr && li.blocks[inst.Block()] {
+		// re-evaluated on every iteration: accepted only as len(x) of an x defined outside the loop (a slice value
+		// cannot change length; a reassigned slice variable would be a phi inside the loop)
+		call, isCall := other.(*ssa.Call)
+		if !isCall || !isLenCall(call) {
+			return false
+		}
+		if b, _ := call.Common().Value.(*ssa.Builtin); b == nil || b.Name() != "len" {
+			return false
+		}
+		arg := call.Common().Args[0]
+		if ai, ok := arg.(ssa.Instruction); ok && li.blocks[ai.Block()] {
+			return false
+		}
+		if _, isSlice := arg.Type().Underlying().(*types.Slice); !isSlice {
+			if _, isStr := arg.Type().Underlying().(*types.Basic); !isStr {
+				return false
+			}
+		}
+		bound, ok = constInt(mkLen(st, en.eval(st, fr, arg), call.Type()))
+		if !ok {
+			return false
+		}
+	} else {
+		bound, ok = constInt(en.eval(st, fr, other))
+		if !ok {
+			return false
+		}
+	}
+	idx := -1
+	for i, p := range header.Preds {
+		if p == from {
+			idx = i
+		}
+	}
+	if idx < 0 {
+		return false
+	}
+	ic, ok := phi.Edges[idx].(*ssa.Const)
+	if !ok || !isIntConst(ic) {
+		return false
+	}
+	step := int64(0)
+	for j, e := range phi.Edges {
+		if j == idx {
+			continue
+		}
+		s, ok := phiStep(e, phi)
+		if !ok || s == 0 || (step != 0 && s != step) {
+			return false
+		}
+		step = s
+	}
+	if step == 0 {
+		return false
+	}
+	trips := (bound - (ic.Int64() + off)) / step
+	if trips < 0 {
+		trips = -trips
+	}
+	return trips <= 64
+}
+
+// constGlobals: initial contents of package-level variables of the library that are effectively constant — of array /
+// basic / string type, stored only by the package initialiser and never address-taken elsewhere. Computed once per
+// program by simulating the initialisers.
+func (p *Prog) constGlobals(en *Engine) map[string]cell {
+	if p.globalInit != nil {
+		return p.globalInit
+	}
+	p.globalInit = map[string]cell{}
+	for _, pk := range p.Lib {
+		// candidates
+		cand := map[*ssa.Global]bool{}
+		for _, m := range pk.Members {
+			g, ok := m.(*ssa.Global)
+			if !ok {
+				continue
+			}
+			t := g.Type().Underlying().(*types.Pointer).Elem()
+			if constLikeType(t) {
+				cand[g] = true
+			}
+		}
+		// disqualify globals written or address-taken outside init
+		for _, f := range pkgFunctions(pk) {
+			isInit := f.Name() == "init" && f.Synthetic != ""
+			for _, b := range f.Blocks {
+				for _, in := range b.Instrs {
+					for _, op := range in.Operands(nil) {
+						if op == nil || *op == nil {
+							continue
+						}
+						g, ok := (*op).(*ssa.Global)
+						if !ok || !cand[g] {
+							continue
+						}
+						switch x := in.(type) {
+						case *ssa.UnOp: // load
+						case *ssa.IndexAddr, *ssa.FieldAddr:
+							// element address: fine if only loaded
+							if v, ok := in.(ssa.Value); ok {
+								for _, r := range *v.Referrers() {
+									if _, isLoad := r.(*ssa.UnOp); !isLoad {
+										if _, isDbg := r.(*ssa.DebugRef); !isDbg && !isInit {
+											delete(cand, g)
+										}
+									}
+								}
+							}
+						case *ssa.Store:
+							if x.Addr == ssa.Value(g) && isInit {
+								continue
+							}
+							delete(cand, g)
+						case *ssa.Slice:
+							// slicing a global array yields an alias: allowed only if the slice is just ranged/indexed for reading
+							for _, r := range *x.Referrers() {
+								switch r.(type) {
+								case *ssa.IndexAddr, *ssa.DebugRef:
+								case *ssa.Call:
+									if c, ok := r.(*ssa.Call); !ok || !isLenCall(c) {
+										delete(cand, g)
+									}
+								default:
+									delete(cand, g)
+								}
+							}
+						case *ssa.DebugRef:
+						default:
+							if !isInit {
+								delete(cand, g)
+							}
+						}
+					}
+				}
+			}
+		}
+		if len(cand) == 0 {
+			continue
+		}
+		initFn := pk.Func("init")
+		if initFn == nil || initFn.Blocks == nil {
+			continue
+		}
+		sub := NewEngine(p)
+		sub.Inline = func(caller, callee *ssa.Function, depth int) bool { return callee.Parent() != nil }
+		res, err := sub.Run(initFn)
+		if err != nil {
+			continue
+		}
+		// the synthetic init has exactly one branch, on init$guard; the already-initialised path stores nothing
+		var fin *State
+		n := 0
+		for _, t := range res.Terms {
+			if len(t.stores()) > 0 {
+				fin = t.St
+				n++
+			}
+		}
+		if n != 1 {
+			continue // initialiser with branches: leave the globals unknown
+		}
+		for g := range cand {
+			gv := &GlobalV{G: g}
+			gv.typ = g.Type()
+			gv.key = "&" + shortName(g.String())
+			et := g.Type().Underlying().(*types.Pointer).Elem()
+			if arr, ok := et.Underlying().(*types.Array); ok && arr.Len() <= 64 {
+				for i := int64(0); i < arr.Len(); i++ {
+					ea := mkIndexAddr(gv, intV(i), arr.Elem())
+					v := sub.load(fin, ea, arr.Elem())
+					if _, isC := v.(*ConstV); isC {
+						p.globalInit[ea.Key()] = cell{ea, v}
+					}
+				}
+				continue
+			}
+			v := sub.load(fin, gv, et)
+			if _, isC := v.(*ConstV); isC {
+				p.globalInit[gv.Key()] = cell{gv, v}
+			}
+		}
+	}
+	return p.globalInit
+}
+
+func isLenCall(c *ssa.Call) bool {
+	b, ok := c.Common().Value.(*ssa.Builtin)
+	return ok && (b.Name() == "len" || b.Name() == "cap")
+}
+
+func constLikeType(t types.Type) bool {
+	switch u := t.Underlying().(type) {
+	case *types.Basic:
+		return true
+	case *types.Array:
+		return constLikeType(u.Elem())
+	case *types.Struct:
+		for i := 0; i < u.NumFields(); i++ {
+			if !constLikeType(u.Field(i).Type()) {
+				return false
+			}
+		}
+		return true
+	}
+	return false
 }
